@@ -223,6 +223,23 @@ Definition init (nworkers : nat) (os : list opb) : state :=
 
 Definition run (c : cfg) (sched : list label) (s : state) : state := fold_left (step c) sched s.
 
+(* observation used by the step-wise correspondence with the real engine: after each label, the code of the
+   program point the moved thread is now at (0 for Stop / an unknown worker index) *)
+Definition wcode (w : wpc) : nat :=
+  match w with WLoop => 1 | WFetch => 2 | WStart _ => 3 | WPut _ => 3 | WCheck _ _ _ _ => 4 | WSend _ _ _ _ => 5 | WDead => 6 end.
+Definition ccode (p : cpc) : nat := match p with CGet => 10 | CPost _ => 11 | CAlive => 12 | CDone => 13 end.
+Definition obs (s : state) (l : label) : nat :=
+  match l with
+  | C => ccode (cp s)
+  | W i => match nth_error (workers s) i with Some w => wcode w | None => 0 end
+  | Stop => 0
+  end.
+Fixpoint run_log (c : cfg) (sched : list label) (s : state) : list nat * state :=
+  match sched with
+  | [] => ([], s)
+  | l :: r => let s' := step c s l in let '(log, fin) := run_log c r s' in (obs s' l :: log, fin)
+  end.
+
 (* the status reported by SuiteFinished / PhaseFinished *)
 Definition final_status (s : state) : status :=
   if executed s then match cstatus s with Some st => st | None => SKIP end else SKIP.
